@@ -6,10 +6,19 @@
   _mod_load_dynamic/_mod_register, _cmp_f, the two initialisation passes; list.c's list_sort as
   written; opt.c's opt_register).  The file system and the dynamic loader are parameters.
 
+  Three forms of _mod_register/_cmp_f are covered:
+    `loadDir` / `loadAll`        the pinned code (personality tested after the eviction; F17-PERS, F17-TIE)
+    `loadAllPF`                  the code since commit 59829e8 (personality first): `loadAll` on the
+                                 rewritten directory, justified by `Mod.registerPF_eq`
+    `Tie.loadDir` / `Tie.loadAllPF`  the proposed repair of F17-TIE (findings/C17.patch)
+  All theorems below that speak about `loadDir e d` hold for every directory, hence also for the
+  rewritten one; `perm_invariant_current` and `perm_invariant_tiefix` state determinism for the newer forms.
+
   NOT proved here: that the C code equals the model (correspondence check), anything about dlopen
   itself, int overflow in _cmp_f, the MAXPATHLEN guard of the ancestor walk.
 -/
 import PdshVerif.Mod.Determinism
+import PdshVerif.Mod.TieLemmas
 import PdshVerif.Mod.Spec
 
 namespace PdshVerif.C17
@@ -33,19 +42,21 @@ theorem root_ignores_env (e : Env) (h : e.uid = 0 ∨ e.uid ≠ e.euid) :
 theorem insecure_file_never_opened (e : Env) (d : Dir) (name : Str) (h : name ∈ (loadDir e d).opened) :
     ∃ owner f st, e.owner = some owner ∧ f ∈ d.files ∧ f.fname = name ∧ f.st = some st ∧
       isReg st.mode = true ∧ (st.uid = 0 ∨ st.uid = e.uid ∨ st.uid = owner) ∧ st.mode &&& S_IWOTH = 0 := by
-  have sub : ∃ owner, e.owner = some owner ∧ name ∈ (loadFiles e.uid owner e.pers d.files).opened := by
+  have h : name ∈ (loadDirG beatsPrio cmpF e d).opened := h
+  have sub : ∃ owner, e.owner = some owner ∧
+      name ∈ (loadFilesG beatsPrio e.uid owner e.pers d.files).opened := by
     cases ho : e.owner with
-    | none => rw [loadDir_fatal_owner e d ho] at h; simp at h
+    | none => rw [loadDir_fatal_owner _ _ e d ho] at h; simp at h
     | some owner =>
       cases hp : pathOk e.uid owner d.path with
-      | false => rw [loadDir_fatal_path e d owner ho hp] at h; simp at h
+      | false => rw [loadDir_fatal_path _ _ e d owner ho hp] at h; simp at h
       | true =>
-        by_cases hc : (loadFiles e.uid owner e.pers d.files).count = 0
-        · rw [loadDir_fatal_count e d owner ho hp hc] at h; exact ⟨owner, rfl, h⟩
-        · rw [loadDir_ok e d owner ho hp hc] at h; exact ⟨owner, rfl, h⟩
+        by_cases hc : (loadFilesG beatsPrio e.uid owner e.pers d.files).count = 0
+        · rw [loadDir_fatal_count _ _ e d owner ho hp hc] at h; exact ⟨owner, rfl, h⟩
+        · rw [loadDir_ok _ _ e d owner ho hp hc] at h; exact ⟨owner, rfl, h⟩
   obtain ⟨owner, ho, hn⟩ := sub
-  unfold loadFiles at hn
-  rcases foldl_opened e.uid owner e.pers d.files _ name hn with h0 | ⟨f, hf, hfn, st, hst, hok⟩
+  unfold loadFilesG at hn
+  rcases foldl_opened beatsPrio e.uid owner e.pers d.files _ name hn with h0 | ⟨f, hf, hfn, st, hst, hok⟩
   · simp at h0
   · refine ⟨owner, f, st, ho, hf, hfn, hst, ?_⟩
     simp only [fileOk, ownerOk, Bool.and_eq_true, Bool.or_eq_true, beq_iff_eq] at hok
@@ -80,13 +91,22 @@ theorem insecure_path_loads_nothing (e : Env) (d : Dir) (owner : Nat) (ho : e.ow
       · have h1 : (st.mode &&& S_IWOTH != 0) = true := by simp [hb.1]
         have h2 : (st.mode &&& S_ISVTX == 0) = true := by simp [hb.2]
         simp [h1, h2]
-  rw [loadDir_fatal_path e d owner ho hp]
+  rw [show loadDir e d = loadDirG beatsPrio cmpF e d from rfl, loadDir_fatal_path _ _ e d owner ho hp]
   simp
 
 /-- the same when the owner of the pdsh binary cannot be determined -/
 theorem unknown_owner_loads_nothing (e : Env) (d : Dir) (ho : e.owner = none) :
     (loadDir e d).fatal = true ∧ (loadDir e d).opened = [] ∧ (loadDir e d).mods = [] := by
-  rw [loadDir_fatal_owner e d ho]; simp
+  rw [show loadDir e d = loadDirG beatsPrio cmpF e d from rfl, loadDir_fatal_owner _ _ e d ho]; simp
+
+/-! small concrete directories for the witness theorems -/
+
+def wStat : Option FStat := some ⟨0, 33188⟩          -- root, 0100644
+def wOpt (c : Char) : Option (List OptRow) := some [⟨c, false, 3⟩]
+def wMod (file type name : String) (prio : Int) (pers : Nat) (c : Char) : File :=
+  ⟨file.toList, wStat, .mod ⟨some type.toList, some name.toList, prio, pers, wOpt c, some true⟩⟩
+def wEnv (fs : List File) : Env := ⟨1000, 1000, some ⟨[], fs⟩, ⟨[], []⟩, some 0, 1, none⟩
+def wView (r : Result) : List (String × Bool) := r.mods.map fun m => (String.ofList m.file, m.active)
 
 /-! ## determinism -/
 
@@ -109,35 +129,61 @@ theorem perm_invariant (e : Env) (p : List (Option FStat)) (fs₁ fs₂ : List F
     (loadDir e ⟨p, fs₁⟩).calls = (loadDir e ⟨p, fs₂⟩).calls ∧
     (loadDir e ⟨p, fs₁⟩).opts = (loadDir e ⟨p, fs₂⟩).opts ∧
     (loadDir e ⟨p, fs₁⟩).regs = (loadDir e ⟨p, fs₂⟩).regs ∧
-    (loadDir e ⟨p, fs₁⟩).opened.Perm (loadDir e ⟨p, fs₂⟩).opened := by
-  cases ho : e.owner with
-  | none =>
-    rw [loadDir_fatal_owner e _ ho, loadDir_fatal_owner e _ ho]; simp
-  | some owner =>
-    have hdist := hd owner ho
-    cases hpo : pathOk e.uid owner p with
-    | false =>
-      rw [loadDir_fatal_path e ⟨p, fs₁⟩ owner ho hpo, loadDir_fatal_path e ⟨p, fs₂⟩ owner ho hpo]; simp
-    | true =>
-      have hcnt := count_perm_invariant hp hdist.toRegHyp
-      have hop := opened_perm_invariant hp hdist.toRegHyp
-      by_cases hc : (loadFiles e.uid owner e.pers fs₁).count = 0
-      · rw [loadDir_fatal_count e ⟨p, fs₁⟩ owner ho hpo hc,
-          loadDir_fatal_count e ⟨p, fs₂⟩ owner ho hpo (hcnt.mp hc)]
-        simp [hop]
-      · have hc2 : (loadFiles e.uid owner e.pers fs₂).count ≠ 0 := fun h => hc (hcnt.mpr h)
-        rw [loadDir_ok e ⟨p, fs₁⟩ owner ho hpo hc, loadDir_ok e ⟨p, fs₂⟩ owner ho hpo hc2]
-        simp only [sorted_perm_invariant hp hdist]
-        simp [hop]
+    (loadDir e ⟨p, fs₁⟩).opened.Perm (loadDir e ⟨p, fs₂⟩).opened :=
+  perm_invariantG beatsPrio_ord cmpF_totalPre e p fs₁ fs₂ hp (fun o ho => (hd o ho).toG)
+
+/-- the code as it is since commit 59829e8 (personality tested first; modelled as the pinned code on
+    the rewritten directory, `Mod.registerPF_eq`): a module of another personality can no longer
+    matter, so distinct file names and the absence of ties suffice -/
+theorem perm_invariant_current (e : Env) (p : List (Option FStat)) (fs₁ fs₂ : List File) (hp : fs₁.Perm fs₂)
+    (hn : (fs₁.map (·.fname)).Nodup)
+    (ht : ∀ owner, e.owner = some owner → ∀ f ∈ fs₁, ∀ g ∈ fs₁, ∀ c c',
+      cand e.uid owner e.pers (persFirstFile e.pers f) = some c →
+      cand e.uid owner e.pers (persFirstFile e.pers g) = some c' →
+      c.prio = c'.prio → c.name = c'.name → c = c') :
+    let d₁ : Dir := ⟨p, fs₁.map (persFirstFile e.pers)⟩
+    let d₂ : Dir := ⟨p, fs₂.map (persFirstFile e.pers)⟩
+    (loadDir e d₁).fatal = (loadDir e d₂).fatal ∧ (loadDir e d₁).mods = (loadDir e d₂).mods ∧
+    (loadDir e d₁).calls = (loadDir e d₂).calls ∧ (loadDir e d₁).opts = (loadDir e d₂).opts ∧
+    (loadDir e d₁).regs = (loadDir e d₂).regs ∧ (loadDir e d₁).opened.Perm (loadDir e d₂).opened := by
+  intro d₁ d₂
+  apply perm_invariant e p _ _ (hp.map _)
+  intro owner ho
+  refine ⟨regHyp_persFirst e.uid owner e.pers fs₁ hn, ?_⟩
+  intro f hf g hg c c' hc hc'
+  simp only [List.mem_map] at hf hg
+  obtain ⟨f0, hf0, rfl⟩ := hf
+  obtain ⟨g0, hg0, rfl⟩ := hg
+  exact ht owner ho f0 hf0 g0 hg0 c c' hc hc'
+
+/-- with the proposed repair of F17-TIE (findings/C17.patch) on top of the personality-first code the
+    outcome is a function of the set of directory entries under the sole assumption that file names
+    are distinct -- which directory entries are -/
+theorem perm_invariant_tiefix (e : Env) (p : List (Option FStat)) (fs₁ fs₂ : List File) (hp : fs₁.Perm fs₂)
+    (hn : (fs₁.map (·.fname)).Nodup) :
+    let d₁ : Dir := ⟨p, fs₁.map (persFirstFile e.pers)⟩
+    let d₂ : Dir := ⟨p, fs₂.map (persFirstFile e.pers)⟩
+    (Tie.loadDir e d₁).fatal = (Tie.loadDir e d₂).fatal ∧ (Tie.loadDir e d₁).mods = (Tie.loadDir e d₂).mods ∧
+    (Tie.loadDir e d₁).calls = (Tie.loadDir e d₂).calls ∧ (Tie.loadDir e d₁).opts = (Tie.loadDir e d₂).opts ∧
+    (Tie.loadDir e d₁).regs = (Tie.loadDir e d₂).regs ∧
+    (Tie.loadDir e d₁).opened.Perm (Tie.loadDir e d₂).opened := by
+  intro d₁ d₂
+  exact perm_invariantG Tie.beats_ord Tie.cmpF_totalPre e p _ _ (hp.map _)
+    (fun owner _ => Tie.distinctG_of_regHyp (regHyp_persFirst e.uid owner e.pers fs₁ hn))
+
+/-- the three witnesses below no longer show under the repaired rules -/
+theorem tiefix_witnesses_gone :
+    wView (Tie.loadAllPF (wEnv [wMod "a.so" "misc" "tie" 100 3 'Y', wMod "b.so" "rcmd" "tie" 100 3 'Y']))
+      = wView (Tie.loadAllPF (wEnv [wMod "b.so" "rcmd" "tie" 100 3 'Y', wMod "a.so" "misc" "tie" 100 3 'Y'])) ∧
+    wView (Tie.loadAllPF (wEnv [wMod "a.so" "misc" "alpha" 100 3 'a', wMod "b.so" "misc" "alpha" 100 3 'D']))
+      = wView (Tie.loadAllPF (wEnv [wMod "b.so" "misc" "alpha" 100 3 'D', wMod "a.so" "misc" "alpha" 100 3 'a'])) ∧
+    wView (loadAllPF (wEnv [wMod "lo.so" "misc" "phi" 90 3 'G', wMod "hi.so" "misc" "phi" 120 2 'G',
+                            wMod "z.so" "misc" "zeta" 50 3 'm']))
+      = wView (loadAllPF (wEnv [wMod "hi.so" "misc" "phi" 120 2 'G', wMod "lo.so" "misc" "phi" 90 3 'G',
+                                wMod "z.so" "misc" "zeta" 50 3 'm'])) := by
+  decide
 
 /-! witnesses: the three ways the enumeration order shows (all on a directory of two files) -/
-
-def wStat : Option FStat := some ⟨0, 33188⟩          -- root, 0100644
-def wOpt (c : Char) : Option (List OptRow) := some [⟨c, false, 3⟩]
-def wMod (file type name : String) (prio : Int) (pers : Nat) (c : Char) : File :=
-  ⟨file.toList, wStat, .mod ⟨some type.toList, some name.toList, prio, pers, wOpt c, some true⟩⟩
-def wEnv (fs : List File) : Env := ⟨1000, 1000, some ⟨[], fs⟩, ⟨[], []⟩, some 0, 1, none⟩
-def wView (r : Result) : List (String × Bool) := r.mods.map fun m => (String.ofList m.file, m.active)
 
 /-- F17-TIE (a): misc/tie and rcmd/tie, same priority, same option: whichever is enumerated LAST
     is initialised first and wins the option -/
@@ -181,19 +227,24 @@ theorem dup_higher_priority_only (uid owner pers : Nat) (files : List File)
       c.type = m.type → c.name = m.name → c.prio ≤ m.prio) ∧
     (∀ g ∈ files, ∀ c, cand uid owner pers g = some c →
       ∃ m ∈ (loadFiles uid owner pers files).mods, m.type = c.type ∧ m.name = c.name ∧ c.prio ≤ m.prio) := by
-  have inv := regInv_final uid owner pers files hyp
+  have inv : RegInv beatsPrio uid owner pers files (loadFiles uid owner pers files) :=
+    regInv_final beatsPrio_ord uid owner pers files hyp
+  have le_of : ∀ c m : Mod, ¬ Beats.rel beatsPrio c m → c.prio ≤ m.prio := by
+    intro c m h
+    simp only [Beats.rel, beatsPrio, decide_eq_true_eq] at h
+    omega
   refine ⟨inv.r3, ?_, ?_⟩
   · intro m hm g hg c hc ht hn
     obtain ⟨m', hm', hk', hle⟩ := inv.r2 g hg c hc
     have hk : m'.key = m.key := by
       rw [hk']; simp [Mod.key, ht, hn]
     have : m' = m := key_unique inv.r3 hm' hm hk
-    subst this; exact hle
+    subst this; exact le_of _ _ hle
   · intro g hg c hc
     obtain ⟨m, hm, hk, hle⟩ := inv.r2 g hg c hc
     have h1 := congrArg Prod.fst hk
     have h2 := congrArg Prod.snd hk
-    exact ⟨m, hm, by simpa [Mod.key] using h1, by simpa [Mod.key] using h2, hle⟩
+    exact ⟨m, hm, by simpa [Mod.key] using h1, by simpa [Mod.key] using h2, le_of _ _ hle⟩
 
 /-! ## conflicts: all or nothing -/
 
@@ -239,22 +290,22 @@ theorem conflict_all_or_nothing (e : Env) (d : Dir) (hnf : (loadDir e d).fatal =
     (∀ m ∈ (loadDir e d).mods, m.active = false → m.d.init ≠ some false →
         m.file ∉ (loadDir e d).calls ∧ ∀ p ∈ (loadDir e d).regs, p.1 ≠ m.file) ∧
     (∀ m ∈ (loadDir e d).mods, m.active = true → ∃ p ∈ (loadDir e d).regs, p.1 = m.file) := by
-  obtain ⟨owner, ho, hp, hc⟩ := loadDir_nonfatal e d hnf
+  obtain ⟨owner, ho, hp, hc⟩ := loadDir_nonfatal beatsPrio cmpF e d hnf
   have hreg := hyp owner ho
-  have hperm := listSort_perm cmpF_totalPre (loadFiles e.uid owner e.pers d.files).mods
-  have hnd : ((listSort cmpF (loadFiles e.uid owner e.pers d.files).mods).map (·.file)).Nodup :=
-    (hperm.map _).nodup_iff.mpr (mods_files_nodup hreg)
-  have hin : ∀ m ∈ listSort cmpF (loadFiles e.uid owner e.pers d.files).mods, m.active = false :=
-    fun m hm => mods_inactive hreg m (hperm.mem_iff.mp hm)
+  have hperm := listSort_perm cmpF_totalPre (loadFilesG beatsPrio e.uid owner e.pers d.files).mods
+  have hnd : ((listSort cmpF (loadFilesG beatsPrio e.uid owner e.pers d.files).mods).map (·.file)).Nodup :=
+    (hperm.map _).nodup_iff.mpr (mods_files_nodup beatsPrio_ord hreg)
+  have hin : ∀ m ∈ listSort cmpF (loadFilesG beatsPrio e.uid owner e.pers d.files).mods, m.active = false :=
+    fun m hm => mods_inactive beatsPrio_ord hreg m (hperm.mem_iff.mp hm)
   have inv := initPhase_inv e.pers e.misc _ hnd hin
   have hfiles := files_of_static (initPhase_static e.pers e.misc
-    (listSort cmpF (loadFiles e.uid owner e.pers d.files).mods))
-  rw [loadDir_ok e d owner ho hp hc]
+    (listSort cmpF (loadFilesG beatsPrio e.uid owner e.pers d.files).mods))
+  rw [show loadDir e d = loadDirG beatsPrio cmpF e d from rfl, loadDir_ok _ _ e d owner ho hp hc]
   simp only
   refine ⟨inv.opts, inv.regs, ?_, inv.act⟩
   intro m hm hia hif
   have hno : ∀ p ∈ (initPhase e.pers e.misc
-      (listSort cmpF (loadFiles e.uid owner e.pers d.files).mods)).2.regs, p.1 ≠ m.file := by
+      (listSort cmpF (loadFilesG beatsPrio e.uid owner e.pers d.files).mods)).2.regs, p.1 ≠ m.file := by
     intro p hp' hpf
     obtain ⟨x, hx, hxf, _, hxa⟩ := inv.regs p hp'
     have : x = m := eq_of_nodup_map (·.file) (by rw [hfiles]; exact hnd) x hx m hm (hxf.trans hpf)
